@@ -49,3 +49,18 @@ Qed.
 
 Lemma hmem_hdel_same k h : hmem k (hdel k h) = false.
 Proof. unfold hmem. rewrite hget_hdel_same. reflexivity. Qed.
+
+(* ---- incremental header parsing: a block may be parsed in two pieces cut at a line boundary,
+        provided the second piece does not begin with a continuation line ---- *)
+Lemma hparse_lines_app A : forall B h cur,
+  (match B with l :: _ => starts_ws l = false | [] => False end) ->
+  hparse_lines h cur (A ++ B) =
+  match hparse_lines h cur A with Some h' => hparse_lines h' None B | None => None end.
+Proof.
+  induction A as [|l A IH]; intros B h cur HB.
+  - cbn [app hparse_lines]. destruct B as [|b B]; [contradiction|]. cbn [hparse_lines].
+    destruct cur as [[name raw]|]; [rewrite HB|]; reflexivity.
+  - cbn [app hparse_lines]. destruct cur as [[name raw]|].
+    + destruct (starts_ws l); [apply IH, HB|]. destruct (parse_line l); [apply IH, HB | reflexivity].
+    + destruct (parse_line l); [apply IH, HB | reflexivity].
+Qed.
